@@ -275,7 +275,9 @@ func (s *Shard) setEpochEventHandler(e Event) {
 			continue
 		}
 
-		if ne.epoch-uint64(unpaidSince) >= maxUnpaidEpochDelay {
+		// unpaidSince may be ahead of a delayed epoch event; the unsigned difference
+		// would wrap around then.
+		if uint64(unpaidSince) <= ne.epoch && ne.epoch-uint64(unpaidSince) >= maxUnpaidEpochDelay {
 			l.Info("marking unpaid container as garbage",
 				zap.Stringer("cID", cID), zap.Int64("unpaidSince", unpaidSince))
 
